@@ -60,6 +60,9 @@ type subject struct {
 	// reference outputs on feed A. Loading and running it next to the subject must not disturb either.
 	Model2 []byte
 	exp2   map[string]*ref.T
+	// MayRefuse: a request the pinned tree refuses although the reference computes it (C17 only): a Run may fail;
+	// when it does not, its outputs are judged like any other, and nothing it does may disturb concurrent Runs.
+	MayRefuse bool
 }
 
 // otherWeights returns the model with every float32 initializer replaced by v*0.5+0.25 (nil if there is none).
@@ -778,6 +781,9 @@ func checkC02(c *hx.Checker) {
 		d := depth
 		if s.Name == "sample:ndm" {
 			d = 2
+		}
+		if !thorough && strings.Contains(s.Name, "[elem=") {
+			d = depth - 1 // the per-element-type variants of an operator's first case: one level less in the quick tier
 		}
 		if thorough && (strings.HasPrefix(s.Name, "sample:") || strings.HasPrefix(s.Name, "comp:")) && s.Name != "sample:ndm" {
 			d = 6
